@@ -933,6 +933,23 @@ def main(argv=None):
     qhists = qcorpus + [cq.gen_quiet(ck.rng) for _ in range(300 if ck.tier == "quick" else 15000)]
     ck.count("histories:unread-tail-corpus", len(qcorpus))
     ck.count("histories:unread-tail-random", len(qhists) - len(qcorpus))
+    # (the scenario stream forks workers: it runs BEFORE the big batch, while this process is still small - in the
+    #  thorough tier the batch results take ~10 GB, and forked children of such a parent were killed for memory)
+    # --- (c) round 6: an engine call that fails once inside a bucket-level call and a caller that carries on (re-creates,
+    #     creates another id, repeats the call); two Datastores on one file; two threads (harness/store_sched.py)
+    try:
+        from . import store_sched as ss
+        quick = ck.tier == "quick"
+        big = 10 ** 9
+        scns = (ss.pick(ck.rng, ss.fault_scenarios(), 60 if quick else big, must=lambda s: s.get("bucket_level"))
+                + ss.object_scenarios(ck.rng, quick)
+                + ss.pick(ck.rng, ss.thread_scenarios(backends=("peewee",)), 40 if quick else big,
+                          must=lambda s: s["steps"][-2]["a"]["op"][0] in ("create", "update", "delete_bucket")))
+        ss.check(ck, "C05", ss.C05_KINDS, scns, "scenario")
+    except Exception as ex:  # noqa: BLE001 -- reported, never hidden
+        ck.disagreement("scenarios", f"the fault / two-object / two-thread scenarios could not run: {type(ex).__name__}: {ex}",
+                        {"kind": "scenario-stream"})
+
     all_results = run_impl_batch(hists + qhists)
     results, qresults = all_results[:len(hists)], all_results[len(hists):]
 
@@ -1003,21 +1020,6 @@ def main(argv=None):
                                      "call before unread_from_call dump every bucket (Run.dump), from there on no read "
                                      "at all, one Run.dump at the end (= harness.c05.run_history(..., quiet_from)); "
                                      "SqliteStorage with the default enable_lazy_commit=True"})
-
-    # --- (c) round 6: an engine call that fails once inside a bucket-level call and a caller that carries on (re-creates,
-    #     creates another id, repeats the call); two Datastores on one file; two threads (harness/store_sched.py)
-    try:
-        from . import store_sched as ss
-        quick = ck.tier == "quick"
-        big = 10 ** 9
-        scns = (ss.pick(ck.rng, ss.fault_scenarios(), 60 if quick else big, must=lambda s: s.get("bucket_level"))
-                + ss.object_scenarios(ck.rng, quick)
-                + ss.pick(ck.rng, ss.thread_scenarios(backends=("peewee",)), 40 if quick else big,
-                          must=lambda s: s["steps"][-2]["a"]["op"][0] in ("create", "update", "delete_bucket")))
-        ss.check(ck, "C05", ss.C05_KINDS, scns, "scenario")
-    except Exception as ex:  # noqa: BLE001 -- reported, never hidden
-        ck.disagreement("scenarios", f"the fault / two-object / two-thread scenarios could not run: {type(ex).__name__}: {ex}",
-                        {"kind": "scenario-stream"})
 
     # --- correspondence with the model
     if have_driver:
